@@ -2,6 +2,7 @@
 
 from __future__ import annotations
 
+import collections.abc as collections_abc
 import copy
 import enum
 import itertools
@@ -90,7 +91,7 @@ def arg_pairs(form, arg, op):
         if "%" in arg and op in ("update_query", "mod"):
             alts.append(ref_parse_plain(arg, True))
         return alts
-    if form in ("dict", "mdict", "cimdict", "kwargs"):
+    if form in ("dict", "mdict", "cimdict", "kwargs", "mapping"):
         items = list(arg.items())
         out = []
         for k, v in items:
@@ -142,9 +143,27 @@ def check_update(old, news, got, ci=False, extra_keys=()):
     return None
 
 
+class ROMapping(collections_abc.Mapping):
+    """A Mapping that is neither dict nor MultiDict."""
+
+    def __init__(self, pairs):
+        self._d = dict(pairs)
+
+    def __getitem__(self, k):
+        return self._d[k]
+
+    def __iter__(self):
+        return iter(self._d)
+
+    def __len__(self):
+        return len(self._d)
+
+
 def build_arg(form, pairs):
     from multidict import CIMultiDict, MultiDict
 
+    if form == "mapping":
+        return ROMapping(pairs)
     if form == "str":
         return "&".join(f"{k}={v}" for k, v in pairs)
     if form == "dict" or form == "kwargs":
@@ -170,6 +189,8 @@ def snapshot(arg):
 def same_arg(a, b):
     from multidict import MultiDict
 
+    if isinstance(a, ROMapping):
+        return list(a.items()) == list(b.items()) or repr(list(a.items())) == repr(list(b.items()))
     if isinstance(a, MultiDict.__mro__[0]) or hasattr(a, "getall"):
         return list(a.items()) == list(b.items())
     if isinstance(a, dict):
@@ -264,7 +285,7 @@ def run_case(ctx, old_qs, op, form, arg, sig_extra=(), base_text="http://example
         if mode == "exact":
             err = None if got == alt else f"query pairs {got!r} != model {alt!r}"
         else:
-            empties = [k for k, v in arg.items() if isinstance(v, (list, tuple)) and not v] if form in ("dict", "mdict", "cimdict", "kwargs") else []
+            empties = [k for k, v in arg.items() if isinstance(v, (list, tuple)) and not v] if form in ("dict", "mdict", "cimdict", "kwargs", "mapping") else []
             err = check_update(old, alt, got, extra_keys=empties)
         if err is None:
             break
@@ -314,11 +335,11 @@ def run_kernel(ctx):
     for old in olds:
         for new in news:
             for op in ("with_query", "extend_query", "update_query", "mod"):
-                for form in ("str", "dict", "mdict", "cimdict", "list", "tuple", "kwargs"):
+                for form in ("str", "dict", "mdict", "cimdict", "list", "tuple", "kwargs", "mapping"):
                     i += 1
                     if not ctx.mine(i):
                         continue
-                    if form in ("dict", "kwargs") and len({k for k, _ in new}) < len(new):
+                    if form in ("dict", "kwargs", "mapping") and len({k for k, _ in new}) < len(new):
                         continue
                     if op == "mod" and form == "kwargs":
                         continue
@@ -388,14 +409,14 @@ def run_random(ctx):
             arg = tuple(key() for _ in range(r.randint(0, 3)))
             run_case(ctx, old, op, "args", arg, ("r",))
             continue
-        form = r.choice(["str", "dict", "mdict", "cimdict", "list", "tuple", "kwargs", "none"])
+        form = r.choice(["str", "dict", "mdict", "cimdict", "list", "tuple", "kwargs", "none", "mapping"])
         n = r.randint(0, 3)
         if form == "none":
             arg = None
         elif form == "str":
             arg = "&".join(key().replace("&", "").replace("=", "") + ("=" + sval().replace("&", "") if r.random() < 0.85 else "") for _ in range(n))
             arg = arg.replace("#", "")
-        elif form in ("dict", "kwargs"):
+        elif form in ("dict", "kwargs", "mapping"):
             arg = {}
             for _ in range(n):
                 k = key() if form == "dict" else r.choice(["a", "b", "c", "d", "é", "k_1"])
@@ -405,6 +426,8 @@ def run_random(ctx):
                     if r.random() < 0.5:
                         v = tuple(v)
                 arg[k] = v
+            if form == "mapping":
+                arg = ROMapping(list(arg.items()))
         elif form in ("mdict", "cimdict"):
             arg = build_arg(form, [(key(), val()) for _ in range(n)])
         else:
